@@ -1,7 +1,9 @@
 """C14 - f_and / f_or are `and` / `or` folds over the order in which inputs finish."""
+import json
+import os
 import random
 
-from .. import tlc
+from .. import core, tlc
 from ..scen.combinators import TRUTHY, FALSY_FRESH, FALSY_SINGLE
 
 TRACE = "CombinatorObsTrace"
@@ -52,9 +54,12 @@ def gen(rng):
 def facts(p):
     used = set(p["pos"])
     ins = [d for i, d in enumerate(p["inputs"]) if i + 1 in used]
+    twice = set(i for i in used if p["pos"].count(i) > 1)
     return {"op": p["op"], "input_cancel": any(d["kind"] == 4 for d in ins),
-            "dup": len(p["pos"]) != len(used), "output_cancel": p.get("cancel_at") is not None,
-            "shield": any(d.get("shield") for d in ins)}
+            "dup": bool(twice), "output_cancel": p.get("cancel_at") is not None,
+            "shield": any(d.get("shield") for d in ins),
+            # a repeated input that is a (possibly already finished) future of the library's own class
+            "dup_done_wrapped": any(p["inputs"][i - 1].get("shield") and p["inputs"][i - 1].get("kind") for i in twice)}
 
 
 def make_tasks(rng, n, gen_fn):
@@ -67,20 +72,26 @@ def make_tasks(rng, n, gen_fn):
     return tasks
 
 
+HIST_EVENTS = ("CombCall", "CombRet", "CombRaise", "InputSetCall", "InputSetRet", "CancelArrived", "CancelCall",
+               "CancelRet", "End")
+
+
 def converter(op):
+    """TLC behaviour of BoolOp.tla / Zip.tla (Coarse = TRUE) -> (task, expected event history)."""
     def convert(beh):
         st0 = beh[0][1]
         K = tlc.nums(st0["cfgK"])
-        S = tlc.bools(st0["cfgS"])
-        D = tlc.nums(st0["cfgP"])
+        S = tlc.bools(st0["cfgS"]) if "cfgS" in st0 else [False] * len(K)
+        P = tlc.nums(st0["cfgP"])
         U = tlc.bools(st0["cfgU"])[0]
         inputs = [{"kind": K[i], "at": 0, "shield": S[i]} for i in range(len(K))]
-        task = {"scen": "combinators",
-                "params": {"op": op, "inputs": inputs, "pos": D, "cancel_at": 0 if U else None, "horizon": 100,
-                           "visible": True},
+        p = {"op": op, "inputs": inputs, "pos": P, "early": True, "cancel_at": 0 if U else None, "horizon": 100,
+             "visible": True}
+        task = {"scen": "combinators", "params": p,
                 "strat": ["replay", tlc.schedule_of(beh, NAMES), ["sticky"], True], "gran": "sync",
-                "facts": {"op": op}}
-        return task, tlc.hist(beh[-1][1]["hist"])
+                "facts": facts(p)}
+        exp = [[ev, f, 0] for ev, f, _t in tlc.hist(beh[-1][1]["hist"]) if ev in HIST_EVENTS]
+        return task, exp
     return convert
 
 
@@ -88,25 +99,50 @@ def project(trace):
     out = []
     for e in trace:
         ev = e["ev"]
-        if ev in ("InputSetCall", "InputSetRet", "CancelCall", "CancelRet"):
-            out.append([ev, e["f"], 0])
-        elif ev == "CancelArrived" and e["s"] == "input":
+        if ev == "CancelArrived":
+            if e["s"] == "input":
+                out.append([ev, e["f"], 0])
+        elif ev in HIST_EVENTS:
             out.append([ev, e["f"], 0])
     return out
+
+
+def extra_findings():
+    """Candidate findings of the combinators that are not (yet) in known_findings.json."""
+    path = os.path.join(core.ROOT, "known_findings.d", "combinators.json")
+    if not os.path.exists(path):
+        return []
+    return json.load(open(path)).get("findings", [])
+
+
+def require_complete(ck, pairs):
+    """Every execution must have reached its End event with all threads intact - otherwise the clauses that
+    hang on End were never evaluated and 'ok' would be vacuous: that is a machinery error, not a pass."""
+    for (t, r), _v in pairs:
+        if r.get("outcome") != "finished" or r.get("thread_excs") or not any(e["ev"] == "End" for e in r["trace"]):
+            ck.machinery_errors.append("execution did not run to its End event: outcome=%s thread_excs=%s params=%s" % (
+                r.get("outcome"), r.get("thread_excs"), json.dumps(t["params"])[:300]))
+            return
 
 
 def run(ck):
     quick = ck.tier == "quick"
     rng = random.Random(ck.seed)
-    # 1. the modelled design (BoolOperation.handle_done, decision under the lock, write / loser cancellation
-    #    outside it, chain_cancel) satisfies every C14 clause on every interleaving
-    ck.mc("BoolOp", "BoolOp.mc.cfg", timeout=600)
-    ck.mc("BoolOp", "BoolOp.mc2.cfg", timeout=600)
+    ck.findings = ck.findings + extra_findings()
+    # 1. the modelled design (BoolOperation.handle_done: decision under the lock, output write / loser
+    #    cancellation outside it, chain_cancel) satisfies every C14 clause on every interleaving
+    ck.mc("BoolOp", "BoolOp.mc.cfg", timeout=600)      # f_or, one action per micro-operation
+    ck.mc("BoolOp", "BoolOp.mc2.cfg", timeout=600)     # f_and, repeated inputs, f_nocancel, output cancel
     if not quick:
-        ck.mc("BoolOp", "BoolOp.mc3.cfg", timeout=1500)
-    # 2. code -> spec: real executions of f_or / f_and with concurrent completers, judged by TLC
+        for c in ("BoolOp.mc3.cfg", "BoolOp.mc4.cfg", "BoolOp.mc5.cfg"):
+            ck.mc("BoolOp", c, timeout=1500)
+    # 2. spec -> code: coarse-grained TLC behaviours replayed in the real f_or / f_and
+    for cfg, op in (("BoolOp.sim.cfg", "or"), ("BoolOp.sim2.cfg", "and")):
+        behs = tlc.simulate_behaviours("BoolOp", cfg, 40 if quick else 400, 60, ck.seed + 1, timeout=900)
+        ck.replay_behaviours(behs, converter(op), project, TRACE)
+    # 3. code -> spec: real executions of f_or / f_and with concurrent completers, judged by TLC
     tasks = make_tasks(rng, 450 if quick else 10000, gen)
-    ck.run_and_validate(tasks, TRACE)
+    require_complete(ck, ck.run_and_validate(tasks, TRACE))
     ck.assumptions += [
         "a completion linearises between its InputSetCall and InputSetRet, and for the combinator not before "
         "the combinator was called (already-done inputs count as concurrent with each other)",
